@@ -941,6 +941,7 @@ type Scope struct {
 	Fn  *ssa.Function
 	S   Subst
 	Via *ssa.Call // call site in the enclosing scope (nil for the owner)
+	Up  *Scope    // the enclosing scope (nil for the owner)
 }
 
 func (s Subst) resolve(v ssa.Value) ssa.Value {
@@ -1025,7 +1026,8 @@ func scopesOf(f *ssa.Function) []Scope {
 							}
 						}
 					}
-					n := Scope{Fn: h, S: s, Via: call}
+					up := sc
+					n := Scope{Fn: h, S: s, Via: call, Up: &up}
 					out = append(out, n)
 					rec(n, d+1)
 					continue
@@ -1067,7 +1069,8 @@ func scopesOf(f *ssa.Function) []Scope {
 						}
 					}
 				}
-				n := Scope{Fn: h, S: s, Via: call}
+				up := sc
+				n := Scope{Fn: h, S: s, Via: call, Up: &up}
 				out = append(out, n)
 				rec(n, d+1)
 			}
